@@ -302,7 +302,7 @@ def balance_cases(draw):
 
 class Balance(Facet):
     name = "balance"
-    examples = {"quick": 16000, "thorough": 240000}
+    examples = {"quick": 16000, "thorough": 720000}
     shards = {"quick": 16, "thorough": 16}
 
     def strategy(self, tier):
@@ -408,7 +408,7 @@ def flow_cases(draw):
 
 class Flows(Facet):
     name = "flows"
-    examples = {"quick": 8000, "thorough": 120000}
+    examples = {"quick": 8000, "thorough": 360000}
     shards = {"quick": 16, "thorough": 16}
 
     def strategy(self, tier):
